@@ -1,6 +1,6 @@
-"""C14 - queue family check (see lib/queuefam.py)."""
-from lib import queuefam
+"""C14 - queue family check (see lib/queuefam.py) + the Admin API / MCP request layer (lib/c14admin.py)."""
+from lib import c14admin, queuefam
 
 
 def main(ctx, replay):
-    return queuefam.run_property(ctx, "C14", 150, 3000)
+    return queuefam.run_property(ctx, "C14", 150, 3000, extra=c14admin.run, extra_prop_files=("C14admin",))
